@@ -16,8 +16,9 @@ EXTENDS Integers, Sequences, FiniteSets, TLC, Json, IOUtils
 
 Trace == ndJsonDeserialize(IOEnv.TRACE_FILE)
 
-VARIABLES l, viol
-pvars == <<l, viol>>
+VARIABLES l, viol,
+          oma, omb     \* handle of every creation ordinal in execution a / b (from the last op event)
+pvars == <<l, viol, oma, omb>>
 
 SetOf(s) == {s[i] : i \in DOMAIN s}
 Bag(s) == [x \in SetOf(s) |-> Cardinality({i \in DOMAIN s : s[i] = x})]
@@ -49,21 +50,31 @@ C12(a, b) ==
 
 (***************************************************************************)
 (* C14: typed vs ID-based API (executions through different API paths).    *)
+(* The two executions may iterate (and therefore recycle ids) in a         *)
+(* different order, so entities are compared by creation ordinal.          *)
 (***************************************************************************)
-C14(a, b) ==
+OrdIn(om, h) == IF \E i \in DOMAIN om : om[i] = h THEN CHOOSE i \in DOMAIN om : om[i] = h ELSE (IF h = <<0, 0>> THEN 0 ELSE -1)
+OrdEnts(om, st) ==
+    {[e |-> OrdIn(om, st.ents[i].e), c |-> st.ents[i].c, v |-> st.ents[i].v,
+      t |-> [k \in DOMAIN st.ents[i].t |-> OrdIn(om, st.ents[i].t[k])]] : i \in DOMAIN st.ents}
+OrdSeq(om, hs) == [i \in DOMAIN hs |-> OrdIn(om, hs[i])]
+
+C14(a, b, ma, mb) ==
     IF a.k # b.k THEN {V("C14.shape", <<a.k, b.k>>)}
     ELSE IF a.k = "op"
     THEN (IF a.panic # b.panic THEN {V("C14.panic-differs", <<a.op, a.i, a.panic, b.panic>>)} ELSE {})
-         \cup (IF a.ret # b.ret THEN {V("C14.returned-handles", <<a.op, a.i>>)} ELSE {})
-         \cup (IF Ents(a.st) # Ents(b.st) \/ SetOf(a.st.alive) # SetOf(b.st.alive) \/ a.st.locked # b.st.locked \/ a.st.used # b.st.used
+         \cup (IF Len(a.ret) # Len(b.ret) THEN {V("C14.returned-handles", <<a.op, a.i>>)} ELSE {})
+         \cup (IF OrdEnts(a.om, a.st) # OrdEnts(b.om, b.st) \/ a.st.locked # b.st.locked \/ a.st.used # b.st.used
                THEN {V("C14.state", <<a.op, a.i>>)} ELSE {})
-         \cup (IF a.op # "Set" /\ Bag(CbPairs(a.cbs)) # Bag(CbPairs(b.cbs)) THEN {V("C14.callback-wiring", <<a.op, a.i>>)} ELSE {})
-         \cup (IF Bag([i \in DOMAIN a.bvals |-> a.bvals[i].e]) # Bag([i \in DOMAIN b.bvals |-> b.bvals[i].e])
+         \cup (IF a.op # "Set" /\ Bag(OrdSeq(a.om, [i \in DOMAIN a.cbs |-> a.cbs[i].e])) # Bag(OrdSeq(b.om, [i \in DOMAIN b.cbs |-> b.cbs[i].e]))
+               THEN {V("C14.callback-wiring", <<a.op, a.i>>)} ELSE {})
+         \cup (IF Bag(OrdSeq(a.om, [i \in DOMAIN a.bvals |-> a.bvals[i].e])) # Bag(OrdSeq(b.om, [i \in DOMAIN b.bvals |-> b.bvals[i].e]))
                THEN {V("C14.batch-callbacks", <<a.op, a.i>>)} ELSE {})
-         \cup (IF a.ok # b.ok \/ a.res.e # b.res.e THEN {V("C14.query-step", <<a.op, a.i>>)} ELSE {})
+         \cup (IF a.ok # b.ok THEN {V("C14.query-step", <<a.op, a.i>>)} ELSE {})
     ELSE IF a.k = "probe"
     THEN (IF a.panic # b.panic THEN {V("C14.panic-differs", "probe")} ELSE {})
-         \cup (IF Bag(Es(a.visited)) # Bag(Es(b.visited)) \/ a.count # b.count \/ Bag(a.at) # Bag(b.at)
+         \cup (IF Bag(OrdSeq(ma, Es(a.visited))) # Bag(OrdSeq(mb, Es(b.visited))) \/ a.count # b.count
+                  \/ Bag(OrdSeq(ma, a.at)) # Bag(OrdSeq(mb, b.at))
                THEN {V("C14.query-result", <<Es(a.visited), Es(b.visited)>>)} ELSE {})
     ELSE {}
 
@@ -86,16 +97,19 @@ C20(a, b) ==
     ELSE {}
 
 Cmp(ev) == CASE ev.mode = "C12" -> C12(ev.a, ev.b)
-             [] ev.mode = "C14" -> C14(ev.a, ev.b)
+             [] ev.mode = "C14" -> C14(ev.a, ev.b, oma, omb)
              [] ev.mode = "C20" -> C20(ev.a, ev.b)
              [] OTHER -> {}
 
 SetToSeq(S) == LET RECURSIVE G(_) G(T) == IF T = {} THEN <<>> ELSE LET x == CHOOSE y \in T : TRUE IN <<x>> \o G(T \ {x}) IN G(S)
 
-PInit == l = 1 /\ viol = <<>>
+PInit == l = 1 /\ viol = <<>> /\ oma = <<>> /\ omb = <<>>
 PNext == /\ l <= Len(Trace)
          /\ l' = l + 1
          /\ viol' = IF Trace[l].k = "prod" THEN viol \o SetToSeq(Cmp(Trace[l])) ELSE viol
+         /\ IF Trace[l].k = "prod" /\ Trace[l].a.k = "op" /\ Trace[l].b.k = "op"
+            THEN oma' = Trace[l].a.om /\ omb' = Trace[l].b.om
+            ELSE UNCHANGED <<oma, omb>>
 PSpec == PInit /\ [][PNext]_pvars
 
 Done == l = Len(Trace) + 1 => PrintT("VERDICT " \o ToJson([lines |-> Len(Trace), seqs |-> 0, viol |-> viol]))
